@@ -69,7 +69,7 @@ Section Scripts.
   Definition mk_config (mode : edit_mode) (ct : completion_type) (timeout_none : bool) (cols : nat)
              (has_helper : bool) (cands hints : list str) (vk : vkind)
              (bindings : list (list key * cmd)) : config :=
-    mkCfg mode ct timeout_none cols default_tab_stop default_indent_size default_completion_prompt_limit false
+    mkCfg mode ct timeout_none cols default_tab_stop default_indent_size default_completion_prompt_limit false true
           has_helper (script_complete cands) (script_hint hints)
           (match vk with
            | VKNone => fun _ => VRValid None
